@@ -349,6 +349,41 @@ def myJustifs (c : Cfg) (st : St) : List Justification :=
   (c.newNodes.filter (fun n => st.statuses c.oidx n.index)).map
     (fun n => ⟨n.index, priEvalI c.q c.dpriv n.index⟩)
 
+/-- The deferred `checkIfEvicted(ResponsePhase)`: it runs when no error is being returned. -/
+def respFin (c : Cfg) (p : St × RespOut) : St × RespOut :=
+  match p.2 with
+  | .err _ => p
+  | .result none => p          -- computeResult failed: that error is returned, no eviction check
+  | _ => if selfEvicted c p.1 true then (p.1, .evicted) else p
+
+/-- State after the bundle loop and the fast-sync eviction of silent holders. -/
+def respLoop (c : Cfg) (st : St) (bundles : List ResponseBundle) : RespAcc :=
+  bundles.foldl (respStep c) { st := st, validAuthors := fun _ => false, foundComplaint := false }
+
+def respAfterLoop (c : Cfg) (st : St) (bundles : List ResponseBundle) : St :=
+  let acc := respLoop c st bundles
+  if c.fastSync then evictSilent c acc.st acc.validAuthors else acc.st
+
+/-- The node answers the complaints in its own row and resets them. -/
+def answerOwnRow (c : Cfg) (st : St) : St :=
+  { st with statuses := fun d h => if d == c.oidx && included c.newNodes h then false else st.statuses d h }
+
+/-- Body of `ProcessResponses` after the phase checks. -/
+def respCore (c : Cfg) (st : St) (bundles : List ResponseBundle) : St × RespOut :=
+  if !c.fastSync && bundles.isEmpty && c.canReceive && completeSuccess c st.statuses then
+    ((computeResult c st).1, .result (computeResult c st).2)
+  else
+    let st1 := respAfterLoop c st bundles
+    if !(respLoop c st bundles).foundComplaint && completeSuccess c st1.statuses then
+      if c.canReceive then
+        ((computeResult c { st1 with phase := .finish }).1, .result (computeResult c { st1 with phase := .finish }).2)
+      else ({ st1 with phase := .finish }, .done)
+    else
+      let st2 : St := { evictComplained c st1 with phase := .justif }
+      if !c.canIssue then (st2, .justifs none)
+      else if (myJustifs c st2).isEmpty then (st2, .justifs none)
+      else (answerOwnRow c st2, .justifs (some { dealerIndex := c.oidx, justs := myJustifs c st2, sid := c.nonce }))
+
 /-- `ProcessResponses`. -/
 def processResponses (c : Cfg) (st : St) (bundles : List ResponseBundle) : St × RespOut :=
   -- as coded, a node that leaves the group (`!canReceive`) fails one of the two tests whatever its
@@ -357,33 +392,7 @@ def processResponses (c : Cfg) (st : St) (bundles : List ResponseBundle) : St ×
       else !c.canReceive && st.phase != .deal) then (st, .err "leaving node phase")
   else if (if c.fixLeaving then c.canReceive && st.phase != .response else st.phase != .response) then
     (st, .err "not in response phase")
-  else
-    let fin (p : St × RespOut) : St × RespOut :=
-      match p.2 with
-      | .err _ => p
-      | .result none => p          -- computeResult failed: that error is returned, no eviction check
-      | _ => if selfEvicted c p.1 true then (p.1, .evicted) else p
-    if !c.fastSync && bundles.isEmpty && c.canReceive && completeSuccess c st.statuses then
-      let (st', r) := computeResult c st
-      fin (st', .result r)
-    else
-      let acc := bundles.foldl (respStep c) { st := st, validAuthors := fun _ => false, foundComplaint := false }
-      let st1 := if c.fastSync then evictSilent c acc.st acc.validAuthors else acc.st
-      if !acc.foundComplaint && completeSuccess c st1.statuses then
-        if c.canReceive then
-          let (st', r) := computeResult c { st1 with phase := .finish }
-          fin (st', .result r)
-        else fin ({ st1 with phase := .finish }, .done)
-      else
-        let st2 := { evictComplained c st1 with phase := .justif }
-        if !c.canIssue then fin (st2, .justifs none)
-        else
-          let js := myJustifs c st2
-          if js.isEmpty then fin (st2, .justifs none)
-          else
-            let st3 : St := { st2 with statuses := fun d h =>
-              if d == c.oidx && included c.newNodes h then false else st2.statuses d h }
-            fin (st3, .justifs (some { dealerIndex := c.oidx, justs := js, sid := c.nonce }))
+  else respFin c (respCore c st bundles)
 
 /-! ### ProcessJustifications -/
 
@@ -426,20 +435,24 @@ inductive JustOut where
   | nothing                                  -- not a receiver: (nil, nil)
 deriving Repr
 
+/-- State after the bundle loop of `ProcessJustifications`. -/
+def justLoop (c : Cfg) (st : St) (bundles : List JustBundle) : St :=
+  (bundles.foldl (justStep c) (st, fun _ => false)).1
+
+/-- Number of dealers that are not evicted and have an all-success row. -/
+def allGood (c : Cfg) (st : St) : Nat :=
+  (c.oldNodes.filter (fun n => !st.evicted n.index && allTrue c st.statuses n.index)).length
+
+def targetThreshold (c : Cfg) : Nat := if c.isResharing then c.oldThreshold else c.threshold
+
 /-- `ProcessJustifications`. -/
 def processJustifications (c : Cfg) (st : St) (bundles : List JustBundle) : St × JustOut :=
   if !c.canReceive then (st, .nothing)
   else if st.phase != .justif then (st, .err "not in justification phase")
-  else
-    let st1 := (bundles.foldl (justStep c) (st, fun _ => false)).1
-    if selfEvicted c st1 false then (st1, .evicted)
-    else
-      let allGood := (c.oldNodes.filter (fun n => !st1.evicted n.index && allTrue c st1.statuses n.index)).length
-      let target := if c.isResharing then c.oldThreshold else c.threshold
-      if allGood < target then ({ st1 with phase := .finish }, .abort)
-      else
-        let (st', r) := computeResult c st1
-        (st', .result r)
+  else if selfEvicted c (justLoop c st bundles) false then (justLoop c st bundles, .evicted)
+  else if allGood c (justLoop c st bundles) < targetThreshold c then
+    ({ justLoop c st bundles with phase := .finish }, .abort)
+  else ((computeResult c (justLoop c st bundles)).1, .result (computeResult c (justLoop c st bundles)).2)
 
 /-! ### The `Protocol` layer's packet sets -/
 
